@@ -400,6 +400,9 @@ def interesting(events):
     return any(e["calls"] for e in events) and (any(e["exc"] for e in events) or ops & {"reload", "add"})
 
 
+REPORTED = {}
+
+
 def judge(ck, unis, events, label):
     if not events:
         return
@@ -416,6 +419,13 @@ def judge(ck, unis, events, label):
             if first_real.get(v["tid"], 10**9) < v["i"]:
                 continue  # the manager already deviated earlier in this history
             raise tlc.MachineryError(f"generator left the specification's domain: {e}")
+        # the harness keeps 15 replay files: report every (clause, call) combination once so that
+        # one frequent deviation does not crowd out the others; the total is kept in the evidence
+        ck.extra["verdicts_total"] = ck.extra.get("verdicts_total", 0) + 1
+        key = (v["clause"], e["op"])
+        REPORTED[key] = REPORTED.get(key, 0) + 1
+        if REPORTED[key] > 1:
+            continue
         hist = [dict(op=x["op"], n=x["n"], t=x["t"], s=x["s"], k=x["k"], o=x["o"])
                 for x in events if x["tid"] == e["tid"] and x["i"] <= e["i"]]
         ck.violation(v["clause"], dict(op=e["op"], exc=e["exc"], universe=unis[e["u"] - 1], history=hist,
@@ -466,7 +476,7 @@ def run(ck):
 
     files = {u: uni_file(u) for u in UNIVERSES}
     D = ck.pick(9, 14)
-    nsim = ck.pick(100, 1500)
+    nsim = ck.pick(100, 1000)
     sims = {name: start(f"Simulate:ConfigCentral_Sim {name} num={nsim} depth={D}", "ConfigCentral_Sim", name,
                         mc_cfg("SimSpec", 1, extra=f"  D = {D}\n", check=False), "sim", 1, 900,
                         simulate=f"num={nsim}", depth=D + 2, seed=seed() + 4)
@@ -482,7 +492,7 @@ def run(ck):
     # 2. code -> spec while TLC runs: random libraries, random histories
     r_ = rng(4)
     all_events, unis = [], []
-    for _ in range(ck.pick(25, 150)):
+    for _ in range(ck.pick(25, 120)):
         uni = random_universe(r_)
         unis.append(uni)
         for _h in range(ck.pick(8, 20)):
